@@ -346,7 +346,103 @@ class Inliner:
             out += rep if rep is not None else [s]
         return out
 
+    # -- expression helpers --------------------------------------------------------------
+    def _single_expr(self, inf: _Info) -> Optional[ast.expr]:
+        body = list(inf.node.body)
+        if body and isinstance(body[0], ast.Expr) and isinstance(body[0].value, ast.Constant) and isinstance(body[0].value.value, str):
+            body = body[1:]
+        if len(body) == 1 and isinstance(body[0], ast.Return) and body[0].value is not None:
+            return body[0].value
+        return None
+
+    def _subst_expr_helpers(self, node: ast.AST, cls, caller_q) -> ast.AST:
+        outer = self
+
+        class T(ast.NodeTransformer):
+            def visit_Call(self, c):
+                self.generic_visit(c)
+                t = outer._target(c, cls)
+                if t is None:
+                    return c
+                q, inf, is_m = t
+                if not outer._inlinable(q, inf, caller_q) or inf.is_gen:
+                    return c
+                e = outer._single_expr(inf)
+                if e is None:
+                    return c
+                try:
+                    mapping, pre = _bind(c, inf, is_m)
+                except _CannotInline:
+                    return c
+                for st in pre:  # non-simple args: substitute them too (expression context, evaluated once in practice)
+                    mapping[st.targets[0].id] = st.value
+                outer.done.append(f"{q} -> {caller_q} (expr)")
+                return ast.copy_location(_Renamer(mapping).visit(copy.deepcopy(e)), c)
+
+            def visit_FunctionDef(self, n):
+                return n
+
+            visit_AsyncFunctionDef = visit_FunctionDef
+            visit_ClassDef = visit_FunctionDef
+
+        return T().visit(node)
+
+    def _hoist_nested(self, s: ast.stmt, cls, caller_q) -> Optional[List[ast.stmt]]:
+        """stmt(..., helper(args), ...)  ->  _sv_argN = <inlined helper>; stmt(..., _sv_argN, ...)"""
+        if not isinstance(s, (ast.Expr, ast.Assign, ast.AugAssign, ast.Return, ast.AnnAssign)):
+            return None
+        top = s.value if not isinstance(s, ast.Expr) else s.value
+        if top is None:
+            return None
+        found = []
+        for x in ast.walk(top):
+            if isinstance(x, (ast.Lambda, ast.ListComp, ast.SetComp, ast.DictComp, ast.GeneratorExp, ast.IfExp, ast.BoolOp)):
+                continue
+            if isinstance(x, ast.Call) and x is not top and self._target(x, cls) is not None:
+                # not inside a comprehension / lambda / conditional sub-expression
+                found.append(x)
+        guarded = set()
+        for x in ast.walk(top):
+            if isinstance(x, (ast.Lambda, ast.ListComp, ast.SetComp, ast.DictComp, ast.GeneratorExp, ast.IfExp, ast.BoolOp)):
+                for y in ast.walk(x):
+                    guarded.add(id(y))
+        found = [x for x in found if id(x) not in guarded]
+        if not found:
+            return None
+        pre_all: List[ast.stmt] = []
+        for i, call in enumerate(found):
+            nm = f"_sv_arg{len(self.done)}_{i}"
+
+            def mk(v, at, nm=nm):
+                a = ast.Assign(targets=[ast.Name(id=nm, ctx=ast.Store())], value=v if v is not None else ast.Constant(value=None), type_comment=None)
+                ast.copy_location(a, at)
+                return [a]
+
+            rep = self._expand_call(call, cls, caller_q, mk)
+            if rep is None:
+                continue
+            pre_all += rep
+
+            class R(ast.NodeTransformer):
+                def visit_Call(self, c, call=call, nm=nm):
+                    if c is call:
+                        return ast.copy_location(ast.Name(id=nm, ctx=ast.Load()), c)
+                    self.generic_visit(c)
+                    return c
+
+            s = R().visit(s)
+        if not pre_all:
+            return None
+        ast.fix_missing_locations(s)
+        return pre_all + [s]
+
     def _rewrite_stmt(self, s: ast.stmt, cls, caller_q) -> Optional[List[ast.stmt]]:  # noqa: C901
+        rep = self._rewrite_stmt0(s, cls, caller_q)
+        if rep is not None:
+            return rep
+        return self._hoist_nested(s, cls, caller_q)
+
+    def _rewrite_stmt0(self, s: ast.stmt, cls, caller_q) -> Optional[List[ast.stmt]]:  # noqa: C901
         def assign_to(targets):
             def mk(v, at):
                 val = v if v is not None else ast.Constant(value=None)
@@ -441,6 +537,7 @@ class Inliner:
             before = len(self.done)
             for q, inf in list(self.funcs.items()):
                 self._caller_names = {x.id for x in ast.walk(inf.node) if isinstance(x, ast.Name)} | {a.arg for a in ast.walk(inf.node) if isinstance(a, ast.arg)}
+                inf.node.body = [self._subst_expr_helpers(st, inf.cls, q) for st in inf.node.body]
                 inf.node.body = self._rewrite_body(inf.node.body, inf.cls, q)
                 # nested closures of this function
                 for x in _walk_own(inf.node):
@@ -448,7 +545,40 @@ class Inliner:
                         x.body = self._rewrite_body(x.body, inf.cls, q + ".<locals>." + x.name)
             if len(self.done) == before:
                 break
+        self._drop_dead_helpers()
         return self.done
+
+    def _drop_dead_helpers(self) -> None:
+        """A helper whose every use was inlined is dead code: remove its definition so that the call
+        graph does not see a caller-less copy of the moved statements."""
+        inlined = {d.split(" -> ")[0] for d in self.done}
+        for q in inlined:
+            inf = self.unknown.get(q)
+            if inf is None:
+                continue
+            name = inf.node.name
+            still_used = False
+            for x in ast.walk(self.tree):
+                if x is inf.node:
+                    continue
+                if isinstance(x, ast.Name) and x.id == name and isinstance(x.ctx, ast.Load):
+                    still_used = True
+                if isinstance(x, ast.Attribute) and x.attr == name:
+                    still_used = True
+            # references inside the helper's own body do not count
+            own = {id(y) for y in ast.walk(inf.node)}
+            if still_used:
+                still_used = any(
+                    ((isinstance(x, ast.Name) and x.id == name and isinstance(x.ctx, ast.Load)) or (isinstance(x, ast.Attribute) and x.attr == name)) and id(x) not in own
+                    for x in ast.walk(self.tree))
+            if still_used:
+                continue
+            for parent_ in ast.walk(self.tree):
+                body = getattr(parent_, "body", None)
+                if isinstance(body, list) and inf.node in body:
+                    body.remove(inf.node)
+                    if not body:
+                        body.append(ast.Pass())
 
 
 def inline_unknown_helpers(tree: ast.Module, modname: str, baseline_all: Dict[str, Set[str]]) -> List[str]:
